@@ -15,8 +15,11 @@ import (
 // C20: the same operation sequence on MemDB and on a temp-dir GoLevelDB.
 //
 //	op lines:  reset | mem <op> | ldb <op>
-//	<op>:      get K | set K V | del K | batch s,K,V d,K … | ip P | ws P S f|r | setmut K V | getmut K
-//	impl line: ok | <value> | cur=<K:V|none> K:V K:V …      (value: nil, - (empty) or hex)
+//	<op>:      get K | has K | set K V | setsync K V | del K | batch s,K,V d,K … | ip P | ws P S f|r
+//	           | setmut K V | setmutk K V | getmut K | batchmut K V
+//	impl line: ok | <value> | present/absent | pair <value> <value> | cur=<K:V|none> K:V K:V …
+//	           value: `nil` (nil slice = "not stored"), `-` (present, EMPTY) or hex — the three are
+//	           never merged: `db.Get(k) != nil` is the existence check used all over the node
 //
 // Correspondence: `mem` lines against the Lean model of mem_db.go, `ldb` lines against the
 // abstract ordered store. Direct oracle: every op is run on both backends and the two
@@ -28,6 +31,7 @@ const (
 	c20SigNil     = "nil value: MemDB returns nil, GoLevelDB returns empty non-nil"
 	c20SigSetMut  = "MemDB.Set stores the caller's slice"
 	c20SigGetMut  = "MemDB.Get returns the stored slice"
+	c20SigBatch   = "memDBBatch keeps the caller's key/value slices until Write"
 )
 
 func c20show(b []byte) string {
@@ -53,8 +57,9 @@ func c20parse(s string) ([]byte, error) {
 type c20kv struct{ k, v []byte }
 
 type c20res struct {
-	kind string // ok | val | seq
+	kind string // ok | val | has | pair | seq
 	val  []byte
+	val2 []byte
 	cur  *c20kv
 	seq  []c20kv
 }
@@ -71,6 +76,13 @@ func (r c20res) line(norm bool) string {
 		return "ok"
 	case "val":
 		return sv(r.val)
+	case "has":
+		if r.val != nil || norm {
+			return "present"
+		}
+		return "absent"
+	case "pair":
+		return "pair " + sv(r.val) + " " + sv(r.val2)
 	}
 	var sb strings.Builder
 	if r.cur == nil {
@@ -128,9 +140,38 @@ func c20exec(db dbm.DB, w []string) (c20res, error) {
 	switch w[0] {
 	case "get":
 		return c20res{kind: "val", val: db.Get(arg(1))}, nil
+	case "has": // existence-style read
+		return c20res{kind: "has", val: db.Get(arg(1))}, nil
 	case "set":
 		db.Set(arg(1), arg(2))
 		return c20res{kind: "ok"}, nil
+	case "setsync":
+		db.SetSync(arg(1), arg(2))
+		return c20res{kind: "ok"}, nil
+	case "setmutk": // the caller reuses its KEY buffer after Set
+		k, v := arg(1), arg(2)
+		kbuf := append([]byte{}, k...)
+		db.Set(kbuf, append([]byte{}, v...))
+		kbuf[0] ^= 0xff
+		k2 := append([]byte{}, k...)
+		k2[0] ^= 0xff
+		return c20res{kind: "pair", val: c20clone(db.Get(k)), val2: c20clone(db.Get(k2))}, nil
+	case "batchmut": // the caller reuses key and value buffers between Batch.Set and Write
+		k, v := arg(1), arg(2)
+		kbuf, vbuf := append([]byte{}, k...), append([]byte{}, v...)
+		b := db.NewBatch()
+		b.Set(kbuf, vbuf)
+		kbuf[0] ^= 0xff
+		if len(vbuf) > 0 {
+			vbuf[0] ^= 0xff
+		}
+		b.Write()
+		k2 := append([]byte{}, k...)
+		k2[0] ^= 0xff
+		res := c20res{kind: "pair", val: c20clone(db.Get(k)), val2: c20clone(db.Get(k2))}
+		db.Delete(k2)
+		db.Set(k, append([]byte{}, v...))
+		return res, nil
 	case "del":
 		db.Delete(arg(1))
 		return c20res{kind: "ok"}, nil
@@ -167,8 +208,7 @@ func c20exec(db dbm.DB, w []string) (c20res, error) {
 		if len(buf) > 0 {
 			buf[0] ^= 0xff // the caller reuses its buffer
 		}
-		got := db.Get(k)
-		res := c20res{kind: "val", val: append([]byte{}, got...)}
+		res := c20res{kind: "val", val: c20clone(db.Get(k))}
 		db.Set(k, append([]byte{}, v...))
 		return res, nil
 	case "getmut":
@@ -181,13 +221,22 @@ func c20exec(db dbm.DB, w []string) (c20res, error) {
 		if len(g) > 0 {
 			g[0] ^= 0xff // the caller writes into the slice it was handed
 		}
-		got := db.Get(k)
-		res := c20res{kind: "val", val: append([]byte{}, got...)}
+		res := c20res{kind: "val", val: c20clone(db.Get(k))}
 		db.Set(k, orig)
 		return res, nil
 	}
 	return c20res{}, bad
 }
+
+// c20clone copies a result keeping the nil / empty distinction.
+func c20clone(b []byte) []byte {
+	if b == nil {
+		return nil
+	}
+	return append([]byte{}, b...)
+}
+
+func nilKeep(b []byte) []byte { return c20clone(b) }
 
 func c20filterPrefix(all []c20kv, p []byte) []c20kv {
 	var out []c20kv
@@ -211,22 +260,42 @@ func c20sameNorm(a, b []c20kv) bool {
 	return true
 }
 
+// c20nilOnly: the two answers differ only in nil vs empty values, and every such value belongs
+// to a key whose last write stored a NIL slice (the recorded class F24c). An EMPTY value that
+// one backend reports as absent is NOT that class.
+func c20nilOnly(w []string, m, l c20res, nilKeys map[string]bool) bool {
+	if m.line(true) != l.line(true) {
+		return false
+	}
+	differs := func(a, b []byte) bool { return (a == nil) != (b == nil) }
+	key := func(i int) string {
+		k, _ := c20parse(w[i])
+		return string(k)
+	}
+	switch m.kind {
+	case "val", "has":
+		return !differs(m.val, l.val) || nilKeys[key(1)]
+	case "pair":
+		k2 := []byte(key(1))
+		k2[0] ^= 0xff
+		return (!differs(m.val, l.val) || nilKeys[key(1)]) && (!differs(m.val2, l.val2) || nilKeys[string(k2)])
+	case "seq":
+		ma, la := m.all(), l.all()
+		for i := range ma {
+			if differs(ma[i].v, la[i].v) && !nilKeys[string(ma[i].k)] {
+				return false
+			}
+		}
+	}
+	return true
+}
+
 // c20classify names the class of a difference between the two backends on op w.
 // Anything that is not exactly one of the recorded classes keeps the full op as signature.
-func c20classify(w []string, m, l c20res) string {
+func c20classify(w []string, m, l c20res, nilKeys map[string]bool) string {
 	full := fmt.Sprintf("%s: mem=[%s] ldb=[%s]", strings.Join(w, " "), m.line(false), l.line(false))
-	if m.line(true) == l.line(true) {
-		return c20SigNil // the only difference is nil vs empty values
-	}
+	// the aliasing probes first: their recorded patterns are exact (nil-ness included)
 	switch w[0] {
-	case "ws":
-		p, _ := c20parse(w[1])
-		if w[3] == "r" && w[2] != "nil" {
-			return c20SigReverse
-		}
-		if c20sameNorm(c20filterPrefix(m.all(), p), l.all()) {
-			return c20SigPrefix
-		}
 	case "setmut":
 		v, _ := c20parse(w[2])
 		if len(v) > 0 && bytes.Equal(l.val, v) && len(m.val) == len(v) && m.val[0] == v[0]^0xff && bytes.Equal(m.val[1:], v[1:]) {
@@ -235,6 +304,31 @@ func c20classify(w []string, m, l c20res) string {
 	case "getmut":
 		if len(l.val) > 0 && len(m.val) == len(l.val) && m.val[0] == l.val[0]^0xff && bytes.Equal(m.val[1:], l.val[1:]) {
 			return c20SigGetMut
+		}
+	case "batchmut":
+		// GoLevelDB wrote (k, v); MemDB wrote the mutated buffers (k', flip(v))
+		v, _ := c20parse(w[2])
+		fv := append([]byte{}, v...)
+		if len(fv) > 0 {
+			fv[0] ^= 0xff
+		}
+		if l.val != nil && bytes.Equal(l.val, v) && m.val2 != nil && bytes.Equal(m.val2, fv) {
+			return c20SigBatch
+		}
+	}
+	if m.line(true) == l.line(true) {
+		if c20nilOnly(w, m, l, nilKeys) {
+			return c20SigNil // the only difference: values written as nil slices
+		}
+		return "empty value reported as absent by one backend: " + full
+	}
+	if w[0] == "ws" {
+		p, _ := c20parse(w[1])
+		if w[3] == "r" && w[2] != "nil" {
+			return c20SigReverse
+		}
+		if c20sameNorm(c20filterPrefix(m.all(), p), l.all()) {
+			return c20SigPrefix
 		}
 	}
 	return full
@@ -248,6 +342,34 @@ type c20env struct {
 	lastRes c20res
 	haveMem bool
 	nSig    map[string]int
+	nilKeys map[string]bool // keys whose last write stored a nil slice
+}
+
+// track keeps nilKeys in step with the op (called once per op pair, on the `mem` line).
+func (e *c20env) track(w []string) {
+	key := func(s string) string { k, _ := c20parse(s); return string(k) }
+	switch w[0] {
+	case "set", "setsync":
+		e.nilKeys[key(w[1])] = w[2] == "nil"
+	case "del":
+		delete(e.nilKeys, key(w[1]))
+	case "batch":
+		for _, tok := range w[1:] {
+			p := strings.Split(tok, ",")
+			if len(p) == 3 {
+				e.nilKeys[key(p[1])] = p[2] == "nil"
+			} else if len(p) == 2 {
+				delete(e.nilKeys, key(p[1]))
+			}
+		}
+	case "setmut", "setmutk":
+		e.nilKeys[key(w[1])] = false
+	case "batchmut":
+		k2 := []byte(key(w[1]))
+		k2[0] ^= 0xff
+		e.nilKeys[key(w[1])] = false
+		delete(e.nilKeys, string(k2))
+	}
 }
 
 // fail records a direct-oracle failure; a recorded class is written out at most 25 times per
@@ -275,6 +397,7 @@ func (e *c20env) reset() {
 		e.ldb.Delete(k)
 	}
 	e.haveMem = false
+	e.nilKeys = map[string]bool{}
 	e.c.Op("reset", "ok")
 }
 
@@ -313,6 +436,7 @@ func (e *c20env) line(l string) {
 	opText := strings.Join(w[1:], " ")
 	if w[0] == "mem" {
 		e.lastOp, e.lastRes, e.haveMem = opText, res, true
+		e.track(w[1:]) // the comparison below sees which keys hold a nil slice AFTER this op's writes
 		return
 	}
 	if !e.haveMem || e.lastOp != opText {
@@ -325,7 +449,7 @@ func (e *c20env) line(l string) {
 		e.c.Count("ws/" + w[4] + "/start=" + map[bool]string{true: "nil", false: "given"}[w[3] == "nil"])
 	}
 	if res.line(false) != e.lastRes.line(false) {
-		sig := c20classify(w[1:], e.lastRes, res)
+		sig := c20classify(w[1:], e.lastRes, res, e.nilKeys)
 		e.c.Count("differs/" + strings.SplitN(sig, ":", 2)[0])
 		e.fail(sig, fmt.Sprintf("%s: MemDB=[%s] GoLevelDB=[%s]", opText, e.lastRes.line(false), res.line(false)))
 	}
@@ -352,10 +476,11 @@ func c20key(c *Ctx, minLen, maxLen int) []byte {
 }
 
 func c20valGen(c *Ctx, allowNil bool) []byte {
-	switch r := c.Rng.Intn(10); {
-	case r == 0 && allowNil:
+	// a dedicated share of EMPTY non-nil values (present key, zero length) and of nil values
+	switch r := c.Rng.Intn(20); {
+	case r < 2 && allowNil:
 		return nil
-	case r == 1:
+	case r < 6:
 		return []byte{}
 	}
 	v := make([]byte, 1+c.Rng.Intn(3))
@@ -389,7 +514,7 @@ func c20start(c *Ctx, p []byte) string {
 }
 
 func runC20(c *Ctx) {
-	c.Rule = "operation sequences (get/set/delete/batch/IteratorPrefix/IteratorPrefixWithStart fwd+rev/caller-mutation probes) over keys of length 1..3 from the alphabet {00,61,62,ff} (shared prefixes, unsigned byte order), values nil/empty/1-3 random bytes, starts nil/empty/inside/just beyond/before the prefix range; each op runs on MemDB and on a temp-dir GoLevelDB; a case is distinct by op text"
+	c.Rule = "operation sequences (get/has/set/setsync/delete/batch/IteratorPrefix/IteratorPrefixWithStart fwd+rev; empty-and-nil-value probes through every write path read back by Get, existence check and iteration; caller-mutation probes on value, key, result and batch buffers) over keys of length 1..3 from the alphabet {00,61,62,ff} (shared prefixes, unsigned byte order), values nil (10% in a third of the cases) / empty non-nil (20%) / 1-3 random bytes, starts nil/empty/inside/just beyond/before the prefix range; each op runs on MemDB and on a temp-dir GoLevelDB; a case is distinct by op text"
 	dir, err := os.MkdirTemp("/var/tmp", "verif-c20-ldb-")
 	if err != nil {
 		panic(err)
@@ -400,7 +525,7 @@ func runC20(c *Ctx) {
 		panic(err)
 	}
 	defer ldb.Close()
-	e := &c20env{c: c, mem: dbm.NewMemDB(), ldb: ldb}
+	e := &c20env{c: c, mem: dbm.NewMemDB(), ldb: ldb, nilKeys: map[string]bool{}}
 
 	lines := c.CorpusLines()
 	if c.Replay != "" {
@@ -423,13 +548,19 @@ func runC20(c *Ctx) {
 		allowNil := c.Rng.Intn(3) == 0
 		for j := 0; j < opsPerCase; j++ {
 			switch r := c.Rng.Intn(100); {
-			case r < 30:
-				e.both(fmt.Sprintf("set %s %s", c20show(c20key(c, 1, 3)), c20show(c20valGen(c, allowNil))))
-			case r < 40:
+			case r < 24:
+				w := "set"
+				if c.Rng.Intn(4) == 0 {
+					w = "setsync"
+				}
+				e.both(fmt.Sprintf("%s %s %s", w, c20show(c20key(c, 1, 3)), c20show(c20valGen(c, allowNil))))
+			case r < 32:
 				e.both("del " + c20show(c20key(c, 1, 3)))
-			case r < 52:
+			case r < 42:
 				e.both("get " + c20show(c20key(c, 1, 3)))
-			case r < 60:
+			case r < 47:
+				e.both("has " + c20show(c20key(c, 1, 3)))
+			case r < 55:
 				var toks []string
 				for n := 1 + c.Rng.Intn(4); n > 0; n-- {
 					if c.Rng.Intn(3) == 0 {
@@ -439,20 +570,44 @@ func runC20(c *Ctx) {
 					}
 				}
 				e.both("batch " + strings.Join(toks, " "))
-			case r < 72:
+			case r < 65:
 				e.both("ip " + c20show(c20key(c, 0, 2)))
-			case r < 94:
+			case r < 83:
 				p := c20key(c, 0, 2)
 				d := "f"
 				if c.Rng.Intn(4) == 0 {
 					d = "r"
 				}
 				e.both(fmt.Sprintf("ws %s %s %s", c20show(p), c20start(c, p), d))
-			case r < 97:
+			case r < 88:
+				// a key written with an EMPTY (present, zero-length) or a nil value through each
+				// write path, then read back: value, existence, iteration
+				k := c20key(c, 1, 3)
+				v := "-"
+				if allowNil && c.Rng.Intn(3) == 0 {
+					v = "nil"
+				}
+				switch c.Rng.Intn(3) {
+				case 0:
+					e.both(fmt.Sprintf("set %s %s", c20show(k), v))
+				case 1:
+					e.both(fmt.Sprintf("setsync %s %s", c20show(k), v))
+				default:
+					e.both(fmt.Sprintf("batch s,%s,%s", c20show(k), v))
+				}
+				c.Count("value-probe/" + v)
+				e.both("get " + c20show(k))
+				e.both("has " + c20show(k))
+				e.both("ip " + c20show(k[:1]))
+			case r < 91:
 				v := c20valGen(c, false)
 				e.both(fmt.Sprintf("setmut %s %s", c20show(c20key(c, 1, 3)), c20show(v)))
-			default:
+			case r < 94:
+				e.both(fmt.Sprintf("setmutk %s %s", c20show(c20key(c, 1, 3)), c20show(c20valGen(c, false))))
+			case r < 97:
 				e.both("getmut " + c20show(c20key(c, 1, 3)))
+			default:
+				e.both(fmt.Sprintf("batchmut %s %s", c20show(c20key(c, 1, 3)), c20show(c20valGen(c, false))))
 			}
 		}
 	}
